@@ -479,7 +479,8 @@ pub fn run(ctx: &Ctx) -> Outcome {
             unreadable_note = e;
         }
     }
-    if text_unreadable > 0 {
+    if text_unreadable > 0 && out.findings.is_empty() {
+        // (violations found in the texts that could be read are reported as such)
         machinery_error(format!("C06: the type definitions of {text_unreadable} emitted texts could not be read while {text_compared} could (last reason: {unreadable_note})"));
     }
     out.cov("text_level_sources_compared", json!(text_compared));
